@@ -16,12 +16,17 @@ def Staircase():
     return S
 
 
-def duck(left, right):
+def duck(left, right, int_dtype=False):
     """operand for the raw combination rules: only .left/.right/.steps are read"""
+    if int_dtype and all(float(v).is_integer() for v in list(left) + list(right)):
+        return types.SimpleNamespace(left=np.array([int(v) for v in left]), right=np.array([int(v) for v in right]), steps=len(left))
     return types.SimpleNamespace(left=np.array(left, dtype=float), right=np.array(right, dtype=float), steps=len(left))
 
 
-def stair(left, right):
+def stair(left, right, int_dtype=False):
+    """int_dtype=True keeps integer-valued bounds as integer arrays (as `Staircase(left=[1, 2, ...])` does)"""
+    if int_dtype and all(float(v).is_integer() for v in list(left) + list(right)):
+        return Staircase()(left=np.array([int(v) for v in left]), right=np.array([int(v) for v in right]))
     return Staircase()(left=np.array(left, dtype=float), right=np.array(right, dtype=float))
 
 
@@ -103,11 +108,18 @@ def rand_small_box(rng, n, lo=-4, hi=6, sign=None):
 
 
 def shift_sign(l, r, sign):
+    """translate a box into a sign class: pos / neg (strict), pos0 / neg0 (touching zero: lo == 0 / hi == 0), str"""
     if sign == "pos":
         s = 1 - min(l) if min(l) <= 0 else 0
         return [x + s for x in l], [x + s for x in r]
     if sign == "neg":
         s = -1 - max(r) if max(r) >= 0 else 0
+        return [x + s for x in l], [x + s for x in r]
+    if sign == "pos0":
+        s = -min(l)
+        return [x + s for x in l], [x + s for x in r]
+    if sign == "neg0":
+        s = -max(r)
         return [x + s for x in l], [x + s for x in r]
     if sign == "str":
         m = (min(l) + max(r)) // 2 if isinstance(min(l), int) else (min(l) + max(r)) / 2
@@ -169,6 +181,12 @@ def lib_box200(rng, sign=None):
         l, r = [x + s for x in l], [x + s for x in r]
     elif sign == "neg":
         s = -0.5 - max(r) if max(r) >= 0 else 0.0
+        l, r = [x + s for x in l], [x + s for x in r]
+    elif sign == "pos0":
+        s = -min(l)
+        l, r = [x + s for x in l], [x + s for x in r]
+    elif sign == "neg0":
+        s = -max(r)
         l, r = [x + s for x in l], [x + s for x in r]
     elif sign == "str":
         m = (min(l) + max(r)) / 2
